@@ -53,6 +53,19 @@ def run(ctx):
                 g = g + [(('I', rng.choice(cl)), cfg['inst_prop'], I('Species'))]
                 g = list(dict.fromkeys(g))
                 stats_typed_classes[0] += 1
+        if i % 12 == 11:
+            # a feature held by exactly t*N instances where the float product t*N lies one ulp above n (0.56*25 = 14.000000000000002): n/N >= t holds,
+            # and it must hold in the run with and in the run without the option alike
+            tn, N_, n_ = rng.choice([(56, 25, 14), (28, 25, 7), (14, 50, 7), (55, 100, 55), (7, 100, 7), (35, 20, 7), (5, 10, 5)])
+            g = []
+            for k in range(N_):
+                g.append((I('bd%d' % k), RDF_TYPE, I('Bound')))
+                if k < n_:
+                    g.append((I('bd%d' % k), EX + 'out', I('bd%d' % ((k + 1) % N_))))
+                    g.append((I('bd%d' % ((k + 3) % N_)), EX + 'back', I('bd%d' % k)))
+            g = list(dict.fromkeys(g))
+            rng.shuffle(g)
+            cfg = dict(gen.default_cfg(), th=[tn, 100])
         cfg['report'] = 'mixed'
         cfg['disable_comments'] = False
         cfg['inverse'] = True
